@@ -217,7 +217,13 @@ pub fn reply_case_strategy_rows(p: &Program, well: u32, unknown_w: u32, garbage_
                 proptest::collection::vec(("[a-z][a-z_]{1,7}", proptest::collection::vec(("[a-z]{1,6}", "[ -~]{0,8}"), 0..3)), 0..3),
                 proptest::collection::vec(("/[a-z.]{1,12}", proptest::collection::vec(any::<u8>(), 0..8)), 0..2),
                 any::<u64>(),
-                "[ -~]{0,20}",
+                // error texts as a chain produces them: arbitrary text, often behind the Display
+                // prefix of an error type (possibly nested), sometimes with non-ASCII / escapes
+                prop_oneof![
+                    4 => "[ -~]{0,20}".prop_map(|s| s.to_string()),
+                    3 => (proptest::sample::select(vec!["Generic error: ", "Overflow: ", "Error parsing into type T: ", "Not found: ", "Generic error: Generic error: ", "error: ", " "]), "[ -~]{0,16}").prop_map(|(p, s)| format!("{p}{s}")),
+                    1 => svmodel::json::string_strategy(),
+                ],
                 proptest::collection::vec(any::<u8>(), 0..12),
                 env_strategy(),
                 any::<u64>(),
